@@ -286,7 +286,7 @@ impl<H: Host> Emulator<H> {
         for action in poke.actions().iter().copied() {
             match action {
                 poke::PokeAction::Mem { addr, value } => {
-                    self.controller.memory.force_write(addr, value);
+                    self.controller.force_write(addr, value);
                 }
             }
         }
